@@ -97,7 +97,7 @@ Section StepLemmas.
   Qed.
 
   (* ---- a grid cell that is an ordinary container ---- *)
-  Lemma step_cell_inv sv inf s c q cs s' more :
+  Lemma step_cell_inv sv s c q cs s' more :
     inv g0 (s_g s) (s_ext s) (s_x s) (s_nears s) cs -> qinv g0 (s_g s) cs (t_id c :: q) ->
     find_f (t_id c) (g_roots (s_g s)) = Some c -> find_f (t_id c) (g_roots g0) = Some c ->
     (forall d, In d cs -> ~ In d (tids c)) -> In c (g_roots (s_g s)) ->
@@ -133,7 +133,7 @@ Section StepLemmas.
       - simpl. rewrite !nonlife_app, SE.
         assert (Hx : nonlife (map x_e xe) = map x_e xe).
         { unfold xe, ex_xs. rewrite map_xe_mk. apply nonlife_cls2. }
-        rewrite Hx, <- app_assoc. symmetry. apply (edges_split g0 g _ _ _ _ I c true). }
+        rewrite Hx, <- app_assoc. symmetry. apply (edges_split g c true). }
     set (g4 := restore sv (add_edges g2 (map x_e xe))).
     assert (GE4 : geq g g4) by (eapply geq_trans; [exact GE | apply restore_geq]).
     pose proof (inv_geq _ _ _ _ _ _ _ I GE4) as I4.
@@ -164,7 +164,8 @@ Section StepLemmas.
                             (mkSame _ _ eq_refl eq_refl eq_refl eq_refl)) as IC.
       assert (Ek : absid (ex_rem c false g4) (t_id c) = path0 g0 (t_id c)).
       { pose proof (iv_extp _ _ _ _ _ _ IC) as FE. apply Forall2_app_inv_l in FE as [l1 [l2 [_ [F2 El]]]].
-        apply app_inj_tail in El as [_ El]. subst l2. inversion F2 as [|? ? ? ? [A _] _]; subst. exact A. }
+        inversion F2 as [|? pe ? l3 [A _] F3]; subst. inversion F3; subst.
+        apply app_inj_tail in El as [_ El]. subst pe. exact A. }
       rewrite Ek in IC. exact IC.
     - eapply qinv_clear; eassumption.
   Qed.
